@@ -135,8 +135,6 @@ def conditions(prop, tier):
     n = 6 if q else 8
     out = []
     for ci, c in enumerate(CLAUSES):
-        if q and c in ('og-description', 'mc-description', 'tc-reference', 'oi-reference', 'nt-description'):
-            continue
         out.append(dict(name='C15.json.%s' % c, fn='text_clause', fixed=dict(ci=ci), extra_pre=['len(v) <= %d' % n], timeout=t,
                         bounds='clause %s with ONE symbolic quoted string (len<=%d incl. the quotes, any character but "), genTexts and '
                                'filter (identity | default) symbolic' % (c, n)))
